@@ -51,6 +51,8 @@ static J gen_dat(Chooser &ch)
   c["comma"] = ch.flip();
   c["sph"] = w.fr.sph; c["R"] = w.fr.R; c["H"] = w.fr.H;
   c["option_order"] = static_cast<int>(ch.range(0, 5));
+  // the documentation gives option lines no fixed place: 30% of the files carry some of them between or after the data rows
+  if (ch.chance(30)) { c["late_options"] = static_cast<int>(ch.range(1, 4)); c["late_after"] = static_cast<int>(ch.range(0, 30)); }
   J rows = J::arr();
   const int n = static_cast<int>(ch.range(1, 30));
   for (int i = 0; i < n; ++i)
@@ -93,14 +95,22 @@ static std::string dat_text(const J &c, const J *override_rows = nullptr)
   if (c.at("convert_spherical").boolean()) opts.push_back("# convert spherical = true");
   std::rotate(opts.begin(), opts.begin() + static_cast<long>(static_cast<size_t>(c.at("option_order").num()) % opts.size()), opts.end());
   std::string t = "# generated data file\n";
-  for (auto &o : opts) t += o + "\n";
+  const size_t n_late = c.has("late_options") ? std::min(opts.size(), static_cast<size_t>(c.at("late_options").num())) : 0;
+  for (size_t i = 0; i + n_late < opts.size(); ++i) t += opts[i] + "\n";
   const std::string sep = c.at("comma").boolean() ? ", " : " ";
-  for (const auto &r : (override_rows ? *override_rows : c.at("rows")).a)
+  const J &rows = override_rows ? *override_rows : c.at("rows");
+  const size_t late_after = n_late ? std::min(rows.size(), static_cast<size_t>(c.at("late_after").num())) : rows.size() + 1;
+  size_t ri = 0;
+  bool late_done = false;
+  for (const auto &r : rows.a)
     {
+      if (n_late && !late_done && ri == late_after) { for (size_t i = opts.size() - n_late; i < opts.size(); ++i) t += opts[i] + "\n"; late_done = true; }
+      ++ri;
       if (r.is_str()) { t += r.str() + "\n"; continue; }
       for (size_t i = 0; i < r.size(); ++i) t += (i ? sep : "") + r[i].str();
       t += "\n";
     }
+  if (n_late && !late_done) for (size_t i = opts.size() - n_late; i < opts.size(); ++i) t += opts[i] + "\n";
   return t;
 }
 
@@ -290,7 +300,7 @@ static J gen_malformed(Chooser &ch)
   const int kind = static_cast<int>(ch.range(0, 2));
   if (kind == 0) row.a.pop_back();                       // too few columns
   else if (kind == 1) row.a.push_back(J("1.5"));         // too many columns
-  else row[ch.index(row.size())] = J(ch.pick<std::string>({"abc", "1.2.3", "--5", "1e", "x12", "120e3m", "7d5", "15:30", "1e5km", "0x1p3z"})); // not a number
+  else row[ch.index(row.size())] = J(ch.pick<std::string>({"abc", "1.2.3", "--5", "1e", "x12", "120e3m", "7d5", "15:30", "1e5km", "0x1p3z", ",", ",,"})); // not a number
   c["kind"] = kind;
   return c;
 }
@@ -321,7 +331,7 @@ int main(int argc, char **argv)
 {
   return run_main("C17", argc, argv,
   {
-    {"dat_table", "worlds (1..4 features, optional cross section) x data files: dim 2/3, 0..5 compositions, 0..2 grain compositions x 0..3 grains, convert spherical, comma or space separated, option lines in any order, comment lines interleaved, 1..30 rows with coordinates spelled in four number formats; oracle: header names = the requested columns, every row = input tokens verbatim + the library's values printed with the stream's default precision. Non-trivial: row inside a feature with non-zero values in >=2 column groups", 40, gen_dat, check_dat},
-    {"malformed_rows", "the same with one row broken (too few / too many columns, a token that is not a number or only starts like one: 'abc', '1.2.3', '120e3m', '7d5', '15:30'), or (20%) a 2D file that sets 'convert spherical = true' with the option lines in any order: the tool must exit non-zero or print an error, never a complete table", 25, gen_malformed, check_malformed},
+    {"dat_table", "worlds (1..4 features, optional cross section) x data files: dim 2/3, 0..5 compositions, 0..2 grain compositions x 0..3 grains, convert spherical, comma or space separated, option lines in any order and (30%) partly between or after the data rows, comment lines interleaved, 1..30 rows with coordinates spelled in four number formats; oracle: header names = the requested columns, every row = input tokens verbatim + the library's values printed with the stream's default precision. Non-trivial: row inside a feature with non-zero values in >=2 column groups", 40, gen_dat, check_dat},
+    {"malformed_rows", "the same with one row broken (too few / too many columns, a token that is not a number or only starts like one: 'abc', '1.2.3', '120e3m', '7d5', '15:30', or an empty field ','), or (20%) a 2D file that sets 'convert spherical = true' with the option lines in any order: the tool must exit non-zero or print an error, never a complete table", 25, gen_malformed, check_malformed},
   });
 }
